@@ -181,17 +181,17 @@ Variable ord : nat -> list edge -> list edge.
 (* ---- BreadthFirstSearch.plan_on ----
    queue / visited entries carry a ghost depth (never read by the control flow). *)
 Record bstate := mkB {
-  b_queue : list (nat * nat);
-  b_visited : list (nat * nat);
+  b_queue : list (nat * Z);
+  b_visited : list (nat * Z);
   b_came : list (nat * (nat * nat))
 }.
 
-Definition bfs_push (s d : nat) (st : bstate) (e : edge) : bstate :=
+Definition bfs_push (s : nat) (d : Z) (st : bstate) (e : edge) : bstate :=
   let t := e_dst e in
   if memn t (map fst (b_visited st)) || memn t (map fst (b_queue st)) then st
-  else mkB (b_queue st ++ [(t, S d)]) (b_visited st) ((t, (s, e_act e)) :: b_came st).
+  else mkB (b_queue st ++ [(t, d + 1)]) (b_visited st) ((t, (s, e_act e)) :: b_came st).
 
-Definition bfs_expand (s d : nat) (st : bstate) (es : list edge) : bstate :=
+Definition bfs_expand (s : nat) (d : Z) (st : bstate) (es : list edge) : bstate :=
   fold_left (bfs_push s d) es st.
 
 Fixpoint bfs_loop (fuel : nat) (st : bstate) : sresult :=
@@ -203,7 +203,7 @@ Fixpoint bfs_loop (fuel : nat) (st : bstate) : sresult :=
       | (s, d) :: q =>
           if g_goal g s then
             match recon (S (length (b_visited st))) (b_came st) start s with
-            | Some (p, acts) => Found p acts (Z.of_nat d) (map fst (b_visited st))
+            | Some (p, acts) => Found p acts d (map fst (b_visited st))
             | None => Broken
             end
           else
@@ -212,7 +212,7 @@ Fixpoint bfs_loop (fuel : nat) (st : bstate) : sresult :=
       end
   end.
 
-Definition bfs_init : bstate := mkB [(start, O)] [] [].
+Definition bfs_init : bstate := mkB [(start, 0)] [] [].
 Definition bfs : sresult := bfs_loop (S (S (g_n g))) bfs_init.
 
 (* ---- AStarSearch.plan_on ----
